@@ -136,7 +136,7 @@ Print Assumptions unescape_accepts_iff.
 
 (* ====================================================================== (3) serialize / unserialize *)
 (* "the matching decoder inverts it exactly": for every value built from null, bool, 64-bit int, float,
-   byte string (any bytes: quotes, semicolons, NUL), list and string-keyed map, nested arbitrarily,
+   ArrayValue with keyed slots, byte string (any bytes: quotes, semicolons, NUL), list and string-keyed map, nested arbitrarily,
    unserialize(serialize(v)) is v — as a PHP value: an empty map comes back as the empty list *)
 Theorem unserialize_serialize : forall v, serializable v = true ->
   exists t, serialize v = Some t /\ unserialize t = POk (canon v).
@@ -178,8 +178,7 @@ Print Assumptions unserialize_accepts_iff.
 (* A float is identified with its text (strconv's float <-> shortest text is assumed); the grammar
    admits array keys of any scalar kind (PHP: int or string only), see Examples.ex_lenient_key.
    Not modelled: class instances (serialize writes O:..., unserialize has no O: case: known finding
-   ser:roundtrip:object), the legacy __origami_ wrappers (PUnmodelled outcome), ArrayValue slots
-   that carry keys (their round trip is checked on the implementation by the driver). *)
+   ser:roundtrip:object), the legacy __origami_ wrappers (PUnmodelled outcome). *)
 
 (* ====================================================================== (4) JSON value <-> tree *)
 (* "emits output that the format's reference implementation reads back as the same value": the
